@@ -19,7 +19,15 @@ def mutate(lines, kind, r):
     """meaning-preserving re-layouts of an accepted file (text level)"""
     out = []
     skip = False  # inside a delimited comment
+    off = False  # inside a --vhdl_comp_off ... --vhdl_comp_on region: every token there is turned into pragma.ignore
     for n, line in enumerate(lines):
+        if "vhdl_comp_off" in line:
+            off = True
+        if off:
+            out.append(line)
+            if "vhdl_comp_on" in line:
+                off = False
+            continue
         t, ci = lex(line)
         opens, closes = line.count("/*"), line.count("*/")
         plain = not skip and opens == 0 and closes == 0 and not line.lstrip().startswith("#") and "vsg_" not in line and "synthesis" not in line and "pragma" not in line and "vhdl_comp" not in line
@@ -77,7 +85,7 @@ def roles_of(lines):
         return "crash: " + type(e).__name__
     out = []
     for t in o.lAllObjects:
-        if isinstance(t, (parser.whitespace, parser.carriage_return, parser.blank_line, parser.comment, parser.preprocessor, delimited_comment.text)):
+        if isinstance(t, (parser.whitespace, parser.carriage_return, parser.blank_line, parser.comment, parser.preprocessor, delimited_comment.text, pragma.ignore)):
             continue
         out.append((type(t).__module__.replace("vsg.", "") + "." + type(t).__name__, t.get_value().lower() if t.get_value()[:1] not in "'\"\\" else t.get_value()))
     return out
